@@ -204,8 +204,8 @@ func c01(c *Ctx) {
 
 	// ---- reset clears every accumulated figure
 	r.Rule("TABLE(reset): every QuotaCalculateInfo field that package core updates incrementally (a store whose value derives from the field's own previous value) is assigned a fresh value in clearForResetNoLock, so the replay after a tree reset starts from zero")
+	accumulated := map[string]string{}
 	if fn := c.Fn(quotaCorePkg, "QuotaInfo", "clearForResetNoLock"); fn != nil {
-		accumulated := map[string]string{}
 		for _, f := range c.PkgFuncs(quotaCorePkg) {
 			for _, b := range f.Blocks {
 				for _, in := range b.Instrs {
@@ -257,6 +257,35 @@ func c01(c *Ctx) {
 		Exempt: map[string]string{
 			"pkg/scheduler/plugins/elasticquota/core.NewGroupQuotaManager": "constructor: the object is not shared yet",
 		}})
+
+	r.Rule("LOCK(per-quota): every write to an incrementally maintained figure of QuotaInfo.CalculateInfo (the fields found by TABLE(reset), incl. entries of their lists) happens while that QuotaInfo's own lock is held for writing: taken directly, or for every group of a path by scopedLockForQuotaInfo whose returned unlock is deferred; *NoLock helpers pass the requirement to their callers (per object or per slice of objects)")
+	c.RunLock("LOCK", LockCfg{Pkg: quotaCorePkg, Type: "QuotaInfo", Mutex: "lock", WriteOnly: true,
+		Guarded: []string{"CalculateInfo"}, MinFuncs: 5,
+		ElemHeldBy: map[string]int{"(*pkg/scheduler/plugins/elasticquota/core.GroupQuotaManager).scopedLockForQuotaInfo": 1},
+		FreshCtors: []string{"pkg/scheduler/plugins/elasticquota/core.NewQuotaInfo", "pkg/scheduler/plugins/elasticquota/core.NewQuotaInfoFromQuota", "(*pkg/scheduler/plugins/elasticquota/core.QuotaInfo).DeepCopy"},
+		Exempt: map[string]string{
+			"pkg/scheduler/plugins/elasticquota/core.NewGroupQuotaManager": "constructor: the object is not shared yet",
+		},
+		SubGuard: func(addr ssa.Value) bool {
+			refs := addr.Referrers()
+			if refs == nil {
+				return false
+			}
+			for _, ref := range *refs {
+				switch x := ref.(type) {
+				case *ssa.FieldAddr:
+					if _, f, _, ok := an.FieldOf(x); ok && accumulated[f] != "" {
+						return true
+					}
+				case *ssa.Store:
+					if x.Addr == addr {
+						return true
+					}
+				}
+			}
+			return false
+		},
+	})
 }
 
 // between: a dominates m and m dominates b (same-block order respected).
